@@ -100,6 +100,9 @@ def lockstep(run, m, F, E, pair, rule_sink):
       mits = measure_iterations(mv)
       nm_total = max(nm_total, len(mits))
       for mi, mit in enumerate(mits):
+        if mit.kind == 'untracked':
+            rule_sink('untracked', pair, 'measure', mname, mit, None, eb_src)
+            continue
         if mit.kind != 'backedge':
             if mit.kind == 'abort':
                 rule_sink('abort', pair, 'measure', None, mit, None, eb_src)
@@ -120,6 +123,8 @@ def lockstep(run, m, F, E, pair, rule_sink):
                     v2, u2 = conv.in_bounds_events(I, cit)
                     rule_sink('bounds', pair, 'convert', label, cit, (v2, u2), eb_src)
                     rule_sink('agree', pair, label, mit, cit, eb_dst, eb_src)
+                elif cit.kind == 'untracked':
+                    rule_sink('untracked', pair, 'convert', label, cit, None, eb_src)
                 elif cit.kind == 'ret':
                     rule_sink('ret', pair, label, mit, cit, None, eb_src)
                 elif cit.kind == 'abort':
@@ -196,7 +201,12 @@ def check_pairs(run, m, F, E):
         subject = '%s <- %s' % (pair.tgt, pair.src)
         st = it.st
         units = conv.describe_units(st, eb_src)
-        if kind == 'bounds':
+        if kind == 'untracked':
+            key = ('R03.2', subject, b)
+            r = agg.setdefault(key, [0, [], []])
+            r[0] += 1
+            r[2].append('the %s loop does not move a recognised cursor over the input: its iterations are not compared' % a)
+        elif kind == 'bounds':
             viol, und = extra
             fn = pair.M if a == 'measure' else pair.C
             key = ('R03.1', subject, a)
